@@ -31,10 +31,10 @@ pub static DEF: PropDef = PropDef {
         "restricted semantics: order keys are non-null and of one type and every ordering ends with id; null ordering position, cross-type comparison and != on nullable fields are not generated",
         "rows are written and read on one in-memory connection, without signatures and rooms",
     ],
-    cases: |t| t.pick(800, 30000),
+    cases: |t| t.pick(6000, 30000),
     shards: |t| t.pick(12, 16),
     case_budget_s: |_| 300,
-    min_conclusive: |t| t.pick(60, 1500),
+    min_conclusive: |t| t.pick(300, 1500),
     run_case,
     finish: None,
     worker_threads: 1,
